@@ -108,6 +108,13 @@ impl EventParser {
                     .collect();
                 format!("({})", elems.join(", "))
             }
+            // Fixed-size arrays and slices, spelled as the other parsers spell them
+            Type::Array(type_array) => {
+                format!("[{}; _]", self.extract_type_name(&type_array.elem))
+            }
+            Type::Slice(type_slice) => {
+                format!("[{}]", self.extract_type_name(&type_slice.elem))
+            }
             _ => "unknown".to_string(),
         }
     }
